@@ -62,6 +62,16 @@ class Gen:
                 if self.vars[x]["pair"]:
                     continue
                 k = self.rng.choice(self.p["eff_kinds"])
+                if "dropvar" in self.p["eff_kinds"] and self.vars[x].get("dropped"):
+                    continue
+                if k == "dropvar":
+                    # the closure takes over the program's handle and lets it go (after a write, usually)
+                    if sum(1 for v in self.vars if not v.get("dropped")) > 1:
+                        if self.rng.random() < 0.7:
+                            out.append(f"set:{x}:{self.rng.randrange(6)}")
+                        out.append(f"dropvar:{x}")
+                        self.vars[x]["dropped"] = True
+                    continue
                 if k == "set":
                     out.append(f"set:{x}:{self.rng.randrange(6)}")
                 elif k == "update":
@@ -94,6 +104,8 @@ class Gen:
         return len(self.nodes) - 1
 
     def op_var(self):
+        if len(self.vars) >= self.p["max_vars"]:
+            return self.op_map()
         if self.rng.random() < self.p["pair_prob"]:
             h = self.new_node(f"pair {self.rng.randrange(4)} {self.rng.randrange(10, 14)}", "var")
             self.vars.append(dict(node=h, pair=True))
@@ -145,6 +157,9 @@ class Gen:
     def template(self, depth, enclosing):
         """returns text of one template.  Every created node is made reachable from the result: the body
         is built so that each new local is consumed by a later one (or is the result)."""
+        if self.p["outer_ret_prob"] > 0 and self.rng.random() < self.p["outer_ret_prob"]:
+            # the closure just picks one of the nodes that exist outside it
+            return f"ret o{self.pick_node(bias_recent=False)}"
         body = []
         nloc = 0
         n_instr = self.rng.choice([0, 1, 1, 2, 3]) if depth < self.p["max_bind_depth"] else self.rng.choice([0, 1, 2])
@@ -291,6 +306,12 @@ class Gen:
     def op_write(self):
         if not self.vars:
             return
+        if self.p["write_burst"] > 0 and self.rng.random() < self.p["write_burst"]:
+            # several variables change before the next stabilise
+            for x, v in enumerate(self.vars):
+                if not v.get("dropped") and not v["pair"] and self.rng.random() < 0.8:
+                    self.emit(f"set {x} {self.rng.randrange(4)}")
+            return
         livev = [i for i, v in enumerate(self.vars) if not v.get("dropped")]
         if not livev:
             return
@@ -375,7 +396,8 @@ DEFAULT_PROFILE = dict(
     obs_ops=["clone", "drop", "drop", "disallow", "read", "read", "subscribe", "subscribe", "unsubscribe", "stateunsub"],
     write_ops=["set", "set", "set", "update", "modify", "replace", "replacewith", "get"],
     eff_kinds=["set", "update", "modify", "replace", "replacewith", "get", "read"],
-    eff_prob=0.0, eff_in_templates=False, eff_in_handlers=False, export_prob=0.0, dangling_prob=0.0,
+    eff_prob=0.0, eff_in_templates=False, eff_in_handlers=False, export_prob=0.0, dangling_prob=0.0, outer_ret_prob=0.0,
+    write_burst=0.0, max_vars=99,
     pair_prob=0.2, max_bind_depth=2, read_after_stabilise=0.7,
 )
 
@@ -393,6 +415,19 @@ def w(**kw):
 
 PROFILES = {
     "basic": {},
+    # C04/C12: closures that write variables and drop the program's last handle of a variable while stabilising
+    "vardrops": dict(eff_prob=0.4, eff_in_templates=True, eff_in_handlers=False,
+                     eff_kinds=["set", "update", "modify", "replace", "get", "dropvar", "dropvar"],
+                     cutoffs=["eq", "never"], pair_prob=0.0,
+                     weights=w(var=5, map=10, bind=4, write=10, stabilise=10, observe=7, obs_misc=4, mapref=1, mapold=1, fold=1,
+                               zip=0, dependon=1, cutoff=1, dropvar=1, dropnode=2),
+                     obs_ops=["read", "drop", "clone"]),
+    # C02: few variables feeding chains of maps; binds that switch between nodes existing outside the closure;
+    # several variables written between stabilises; observers added over time
+    "glitch": dict(weights=w(var=1, const=0, map=12, mapref=1, mapold=0, fold=2, zip=0, dependon=0, bind=9, cutoff=0,
+                             observe=7, obs_misc=3, write=12, stabilise=9, misc=0),
+                   arities=[1, 1, 1, 1, 2, 2, 3], outer_ret_prob=0.6, write_burst=0.6, max_vars=3, pair_prob=0.0,
+                   obs_ops=["read", "drop", "clone"], cutoffs=["eq"], max_bind_depth=2),
     # C20: memoised functions called from top level and from bind closures, handles dropped, binds re-run
     "memo": dict(weights=w(memonew=3, memocall=9, bind=9, write=14, stabilise=10, dropnode=5, observe=7, obs_misc=5,
                            map=5, mapref=1, mapold=1, fold=1, zip=0, dependon=0, cutoff=1, observeexport=2),
@@ -440,11 +475,103 @@ PROFILES = {
 def history(seed, n_ops=25, profile=None):
     if profile == "memo-dynamic":
         return dynamic_memo_history(seed)
+    if profile == "direct":
+        return direct_recompute_history(seed)
     if isinstance(profile, str):
         profile = PROFILES[profile]
     rng = random.Random(seed)
     g = Gen(rng, profile)
     return g.run(n_ops)
+
+
+def direct_recompute_history(seed):
+    """C02/C03, scripted family around the direct-recompute shortcut: binds that switch between nodes living
+    outside the closure (at assorted heights) or build nodes over them, a left-hand side that may have older
+    dependants, a consumer downstream of the bind, and rounds in which the left-hand side and the inputs of the
+    current right-hand side change together, in either order."""
+    rng = random.Random(seed)
+    L = []
+    H = [0]          # number of node handles so far
+
+    def node(line):
+        L.append(line)
+        H[0] += 1
+        return H[0] - 1
+    nobs = [0]
+
+    def observe(h):
+        L.append(f"observe {h}")
+        nobs[0] += 1
+
+    ntempl = rng.choice([2, 2, 3])
+    lhs = node(f"var {rng.randrange(ntempl)}")
+    data = [node(f"var {rng.randrange(5)}") for _ in range(rng.choice([1, 2, 2, 3]))]
+    nvars = 1 + len(data)
+    # older dependants of the left-hand side
+    for _ in range(rng.choice([0, 1, 1, 2])):
+        o = node(f"map {rng.choice([1, 2, 9])} [] {lhs}")
+        observe(o)
+    if nobs[0] and rng.random() < 0.8:
+        L.append("stabilise")
+    # chains over the data variables
+    ends = []
+    for d in data:
+        cur = d
+        for _ in range(rng.choice([0, 1, 2, 2, 3])):
+            cur = node(f"map {rng.choice([0, 1, 2])} [] {cur}")
+            if rng.random() < 0.15:
+                observe(cur)
+        ends.append(cur)
+    if rng.random() < 0.3:
+        L.append("stabilise")
+    # the left-hand side of the bind: the variable itself or a chain over it
+    bl = lhs
+    for _ in range(rng.choice([0, 0, 0, 1, 2])):
+        bl = node(f"map 0 [] {bl}")
+
+    def template(depth):
+        r = rng.random()
+        e = rng.choice(ends)
+        if r < 0.5:
+            return f"ret o{e}"
+        if r < 0.75:
+            return f"map {rng.choice([1, 2, 8])} [] o{e} ; ret l0.0"
+        if r < 0.85:
+            return f"map 1 [] o{e} o{rng.choice(ends)} ; map 2 [] l0.0 ; ret l0.1"
+        if depth < 2:
+            inner = " | ".join(template(depth + 1) for _ in range(2))
+            return f"bind o{rng.choice(ends + [bl])} {{ [] {inner} }} ; ret l0.0"
+        return f"constlhs ; ret l0.0"
+    binds = []
+    for _ in range(rng.choice([1, 1, 2])):
+        ts = " | ".join(template(1) for _ in range(ntempl))
+        b = node(f"bind {bl} {{ [] {ts} }}")
+        binds.append(b)
+        cur = b
+        for _ in range(rng.choice([0, 1, 1, 2])):
+            args = [cur] + ([rng.choice(ends)] if rng.random() < 0.3 else [])
+            cur = node(f"map 1 [] " + " ".join(map(str, args)))
+        observe(cur)
+        if rng.random() < 0.3:
+            observe(b)
+        if rng.random() < 0.4:
+            L.append("stabilise")
+    L.append("stabilise")
+    L += [f"read {o}" for o in range(nobs[0])]
+    for _ in range(rng.choice([2, 3, 4])):
+        ws = []
+        if rng.random() < 0.8:
+            ws.append(f"set 0 {rng.randrange(ntempl)}")
+        for x in range(1, nvars):
+            if rng.random() < 0.7:
+                ws.append(f"set {x} {rng.randrange(6)}")
+        rng.shuffle(ws)
+        L += ws
+        if rng.random() < 0.15 and nobs[0] > 1:
+            L.append(f"dropobs {rng.randrange(nobs[0])}") if f"dropobs" not in " ".join(L[-3:]) else None
+        L.append("stabilise")
+        L += [f"read {o}" for o in range(nobs[0]) if f"dropobs {o}" not in L]
+    return L
 
 
 def dynamic_memo_history(seed):
